@@ -85,9 +85,10 @@ func (r *c15run) deliverHostile(wire []byte, st, rt uint32, what string) {
 	if r.ownKnown {
 		own = v.C.GetOurInstanceTag()
 	}
+	inFlight := len(r.m.QtoR)
 	c := r.m.AReceive(wire)
-	// replies to hostile messages never reach the genuine peer in this world
-	r.m.QtoR = nil
+	// replies to hostile messages never reach the genuine peer in this world (what was in flight before stays)
+	r.m.QtoR = r.m.QtoR[:inFlight]
 	after := v.C.GetTheirInstanceTag()
 	foreign := before != 0 && (st != before || (rt != 0 && rt != own))
 	switch {
@@ -189,6 +190,17 @@ func runC15(sc *C15Script) *sim.Outcome {
 				}
 			}
 			o.Class(fmt.Sprintf("hostile-ake-s%d-r%d", st.ST%7, st.RT%7))
+		case "requery":
+			// somebody asks the victim to renegotiate (an untagged query, a minute or more after the last exchange):
+			// the victim opens a new key exchange, which must not loosen the binding to its peer instance
+			sim.Age(m.A.C, 3*60e9)
+			bound := m.A.C.GetTheirInstanceTag()
+			m.AReceive([]byte("?OTRv3?"))
+			// (the victim's D-H Commit stays in flight: the genuine peer answers it when traffic is next settled)
+			if got := m.A.C.GetTheirInstanceTag(); got != bound {
+				return o.Fail("C15/rebound", "opening a new key exchange changed the bound peer instance from %#x to %#x", bound, got)
+			}
+			o.Class("renegotiation-opened")
 		case "handshake":
 			if established {
 				continue
@@ -223,6 +235,7 @@ func runC15(sc *C15Script) *sim.Outcome {
 			if !established {
 				continue
 			}
+			m.Settle(nil, nil) // completes a renegotiation that may be in flight
 			r.nText++
 			t := token(1, r.nText)
 			w := m.R.Send([]byte(t))
@@ -235,6 +248,7 @@ func runC15(sc *C15Script) *sim.Outcome {
 			if !established {
 				continue
 			}
+			m.Settle(nil, nil)
 			c := m.ASend([]byte(token(0, si)))
 			for _, w := range c.Out {
 				r.checkExtract(w, true, own, m.R.OurTag)
@@ -296,6 +310,7 @@ func runC15(sc *C15Script) *sim.Outcome {
 	if o.Violation != "" {
 		return o
 	}
+	m.Settle(nil, nil)
 	if !established && !(mayBind && m.A.C.GetTheirInstanceTag() != 0) {
 		if !m.Establish(0) {
 			return o.Fail("C15/handshake-blocked", "a genuine handshake after the hostile traffic did not complete (peer tag bound: %#x, genuine peer's tag %#x)", m.A.C.GetTheirInstanceTag(), m.R.OurTag)
@@ -309,11 +324,11 @@ func init() { reg("C15tags", runC15); reg("C15matrix", runC15) }
 
 func TestProp_C15_Tags(t *testing.T) {
 	defer sim.MarkCompleted("C15tags", false)
-	kinds := []string{"hostile", "hostile", "hostile", "handshake", "handshake", "text", "text", "vsend", "fake", "fake", "fake", "frag", "frag", "extract"}
+	kinds := []string{"hostile", "hostile", "hostile", "handshake", "handshake", "text", "text", "vsend", "fake", "fake", "fake", "frag", "frag", "extract", "requery", "requery"}
 	rapid.Check(t, func(rt *rapid.T) {
 		sc := &C15Script{Cfg: genSessCfg(rt), Lazy: rapid.IntRange(0, 2).Draw(rt, "lazy") == 0}
 		sc.Cfg.FragA, sc.Cfg.FragB = 0, 0
-		nOwn := rapid.IntRange(0, 3).Draw(rt, "nown")
+		nOwn := rapid.SampledFrom([]int{0, 1, 2, 3, 5, 8, 12}).Draw(rt, "nown")
 		for i := 0; i < nOwn; i++ {
 			sc.Own = append(sc.Own, rapid.SampledFrom([]uint32{0, 1, 0x42, 0xff, 0x100, 0x101, 0xffffffff, 0x80000000}).Draw(rt, "own"))
 		}
@@ -338,6 +353,7 @@ func TestProp_C15_Matrix(t *testing.T) {
 				{{K: "handshake"}, {K: "fake", ST: st, RT: rt}, {K: "text"}, {K: "vsend"}},
 				{{K: "handshake", M: 1}, {K: "frag", ST: st, RT: rt}, {K: "text"}},
 				{{K: "handshake"}, {K: "hostile", ST: st, RT: rt, M: 2}, {K: "text"}},
+				{{K: "handshake"}, {K: "requery"}, {K: "hostile", ST: st, RT: rt}, {K: "fake", ST: st, RT: rt}},
 			} {
 				for _, lazy := range []bool{false, true} {
 					if lazy && shape[0].K == "handshake" {
